@@ -115,6 +115,7 @@ def qr_blocks(ctx):
             ctx.count("corr:qr:" + fam, key=("qrb", n, np.asarray(U).tobytes()[:96]), nontrivial=True,
                       sample={"n": n, "family": fam, "instructions": len(c.data)} if n == 3 and rep == 0 else None)
             total = np.eye(2 ** n, dtype=complex)
+            all_gates, all_pairs = [], []
             block, seen_mcmt, bad = [], False, None
             blocks = []
             for inst in c.data:
@@ -184,10 +185,17 @@ def qr_blocks(ctx):
                 lines.append(f"(list_eqb mg_eqb (qr_block {n} {col}%N {row}%N) {coq_list(gates)}) && qr_pre {n} {col}%N {row}%N "
                              f"&& (list_eqb mg_eqb (blockg {n} {Lc} {d} {p}%N) {coq_list(gates)}) && path_ok {n} {Lc} {d} {p}%N {col}%N {row}%N")
                 cases.append(dict(case0, block=bi, col=col, row=row))
+                all_gates += [g.replace("MGU 1 ", f"MGU {bi + 1} ", 1) if g.startswith("MGU 1 ") else g for g in gates]
+                all_pairs.append(f"({col}%N, {row}%N)")
                 T = np.eye(2 ** n, dtype=complex)
                 T[col, col], T[col, row], T[row, col], T[row, row] = M[0, 0], M[0, 1], M[1, 0], M[1, 1]
                 total = T @ total
             ctx.monitor("qr_two_level_product")
+            if not bad and n <= 3:
+                # the whole gate list against the model generated from the list of (col, row) pairs (C02_qr_circuit)
+                lines.append(f"(list_eqb mg_eqb (qr_circuit {n} 0 {coq_list(all_pairs)}) {coq_list(all_gates)}) "
+                             f"&& forallb (fun cr => qr_pre {n} (fst cr) (snd cr)) {coq_list(all_pairs)}")
+                cases.append(dict(case0, block="all"))
             if bad:
                 ctx.mismatch("C02 QR correspondence: " + bad, case0)
             elif np.abs(total - np.asarray(U, complex)).max() > 1e-7:
@@ -214,7 +222,7 @@ def replay(ctx, case):
 
 
 MANIFEST = dict(
-    text="Proof (MODULAR/PARTIAL): the demultiplexing identity U1(+)U2 = (V(+)V)(D(+)D^-1)(W(+)W) under the premises V unitary, U1 U2^-1 = V D^2 V^-1, W = D V^-1 U2 (C02_demux, any field, any dimension); the multiplexed rotations used by the synthesis are C13's theorems. Tie: on every _compute_gates and scipy cossin call made while synthesising structured (identity, diagonal, permutation, tensor, block, orthogonal, Hadamard, -I) and Haar unitaries the premises are checked numerically at 1e-8. QR scheme: every block of the circuit (Gray-code moves = fully controlled X gates with zero-controls, the fully controlled 2x2 gate, the moves undone) is the two-level operator on its two basis states for every register width, every path accepted by the checker path_ok and every matrix (C02_qr_block; C02_qr_move: a move is a transposition of basis states), and the path the code takes - lowest differing qubit first - is accepted for every pair of basis states (C02_qr_gray_path), so the block generated from (n, col, row) alone is the two-level operator (C02_qr_block_all); tie: each block of the circuits built for dense unitaries (n = 2..4/5) is compared inside Coq with TwoLevel.qr_block n col row, and the product of the resulting two-level matrices is compared with the input. The recursive wiring, A.1/A.2 and isometry mode are evaluated: operator vs matrix for every option, n<=4/6.",
+    text="Proof (MODULAR/PARTIAL): the demultiplexing identity U1(+)U2 = (V(+)V)(D(+)D^-1)(W(+)W) under the premises V unitary, U1 U2^-1 = V D^2 V^-1, W = D V^-1 U2 (C02_demux, any field, any dimension); the multiplexed rotations used by the synthesis are C13's theorems. Tie: on every _compute_gates and scipy cossin call made while synthesising structured (identity, diagonal, permutation, tensor, block, orthogonal, Hadamard, -I) and Haar unitaries the premises are checked numerically at 1e-8. QR scheme: every block of the circuit (Gray-code moves = fully controlled X gates with zero-controls, the fully controlled 2x2 gate, the moves undone) is the two-level operator on its two basis states for every register width, every path accepted by the checker path_ok and every matrix (C02_qr_block; C02_qr_move: a move is a transposition of basis states), and the path the code takes - lowest differing qubit first - is accepted for every pair of basis states (C02_qr_gray_path), so the block generated from (n, col, row) alone is the two-level operator (C02_qr_block_all) and the circuit generated from the list of pairs is the composition of these operators (C02_qr_circuit); tie: each block of the circuits built for dense unitaries (n = 2..4/5) is compared inside Coq with TwoLevel.qr_block n col row, and the product of the resulting two-level matrices is compared with the input. The recursive wiring, A.1/A.2 and isometry mode are evaluated: operator vs matrix for every option, n<=4/6.",
     note="Modelled, not verified: scipy cossin / numpy eig, Qiskit's _apply_a2, UCRZGate, UCGate, UnitaryGate synthesis; wiring of build_unitary is evaluated only.",
     technique='Coq/mathcomp proof (block matrices over any field) + Coq proof of the QR blocks (conjugated two-level operators, checker-validated paths) + gate-list correspondence (vm_compute) + runtime contract monitors + numpy operator comparison',
     design_ref='DESIGN.md section 4, C02')
